@@ -74,12 +74,13 @@ def syscall(name, start_words, end_words, nested=()):
 def gen_syscall(rng, name, nested=(), error=None):
     s = domain.gen_words(rng, name, 'S')
     e = domain.gen_words(rng, name, 'E')
-    if error is not None:
-        e[0] = error
-    elif rng.random() < 0.6:
-        e[0] = 0
-    else:
-        e[0] = rng.choice((1, 2, 9, 13, 22, 35, 60, 106, 107, 4000))
+    if name.startswith('BSC_'):     # word 0 of a BSD syscall's END record is the error number
+        if error is not None:
+            e[0] = error
+        elif rng.random() < 0.6:
+            e[0] = 0
+        else:
+            e[0] = rng.choice((1, 2, 9, 13, 22, 35, 60, 106, 107, 4000))
     return syscall(name, s, e, nested)
 
 
